@@ -1,4 +1,6 @@
 #!/bin/sh
+# Development helper only (nothing registered in MANIFEST.json uses it). Needs a scratch clone of /repo at /tmp/repo_fixed
+# (git clone /repo /tmp/repo_fixed) and builds in /tmp/hw/<workspace>; both are removed at the end of a session.
 # tools/seed_try.sh <workspace> <candidate-dir> <ID> [tier]  — development helper: run a check against a scratch copy of
 # the current /repo HEAD (/tmp/hw/<workspace>/repo_mut) with the candidate patch applied, using the current /verif/harness sources.
 WS=$1; D=$(cd "$2" && pwd); ID=$3; TIER=${4:-quick}
